@@ -170,7 +170,9 @@ Definition relative (s : sel) : sel := if mentions_amp s then s else implied_amp
 
 Record ctx := mkCtx { c_amp : path -> bool; c_aspec : spec3 }.
 
-Definition top_ctx : ctx := mkCtx (fun _ => false) (0, 0, 0).
+(* outside a nested rule `&` stands for :scope, which without a scoping root is
+   the root element, and its specificity is zero (css-nesting-1 3.2) *)
+Definition top_ctx : ctx := mkCtx (fun q => match q with [_] => true | _ => false end) (0, 0, 0).
 
 Definition list_matches (c : ctx) (g : list sel) (pseudo : N) (p : path) : bool :=
   existsb (fun s => sapplies (c_amp c) s pseudo p) g.
@@ -251,7 +253,9 @@ Definition applicable (d : document) (pseudo : N) (p : path) : list occ :=
 Definition cascaded (d : document) (pseudo : N) (p : path) (prop : N) : option N :=
   option_map (fun w => o_vid (snd w)) (winner (number (applicable d pseudo p)) prop).
 
-(* top-level rules do not use `&` (there it means :scope, outside this model) *)
+(* top-level rules do not use `&`: there the code reads `&` as :root, which
+   selects the same element but has specificity (0,1,0) instead of 0; the main
+   theorem is stated for documents without it and refuted without the hypothesis *)
 Fixpoint rules_no_top_amp (rs : rules) : bool :=
   match rs with
   | RNil => true
